@@ -575,6 +575,24 @@ func check(prop, tier string, seed int64, replay string, budget time.Duration, w
 			fmt.Println("HARNESS-ERROR: cannot read replay file:", err)
 			return 2
 		}
+		var mode struct {
+			Mode string `json:"mode"`
+			Rule string `json:"rule"`
+			Site string `json:"site"`
+			Seed int64  `json:"seed"`
+			Run  int    `json:"run"`
+		}
+		json.Unmarshal(b, &mode)
+		if mode.Mode == "race" {
+			key := mode.Rule + "@" + mode.Site
+			if raceReplay(key, mode.Seed, mode.Run, outDir, 10) {
+				fmt.Printf("replayed (race mode): %s\n", key)
+				fmt.Printf("VIOLATION property=%s replay=%s\n", prop, replay)
+				return 1
+			}
+			fmt.Printf("replay of %s: the race %s did not show up in 10 re-runs of its workload\n", replay, key)
+			return 0
+		}
 		var rec ViolationRecord
 		if err := json.Unmarshal(b, &rec); err != nil {
 			fmt.Println("HARNESS-ERROR: cannot parse replay file:", err)
@@ -739,6 +757,52 @@ func check(prop, tier string, seed int64, replay string, budget time.Duration, w
 		}
 	}
 
+	// Phase 3b: the auxiliary race-detector mode (C13 only).
+	var raceInfo map[string]interface{}
+	if prop == "C13" && os.Getenv("VERIF_SKIP_RACE") == "" {
+		rb := budget / 2
+		if rb < 8*time.Second {
+			rb = 8 * time.Second
+		}
+		reps, workloads, trouble := racePhase(seed, rb, workers, outDir)
+		if trouble != "" {
+			fmt.Println("HARNESS-ERROR:", trouble)
+			return 2
+		}
+		var keys []string
+		for _, r := range reps {
+			keys = append(keys, r.Key)
+			again := raceReplay(r.Key, r.Seed, r.Run, outDir, 6)
+			os.MkdirAll(filepath.Join(verifDir, "replays"), 0755)
+			rp := filepath.Join(verifDir, "replays", fmt.Sprintf("C13-race-%d-%d.json", r.Seed, r.Run))
+			site := strings.TrimPrefix(strings.TrimPrefix(r.Key, "C13.race@"), "C13.race-mode-panic@")
+			rule := "C13.race"
+			if strings.HasPrefix(r.Key, "C13.race-mode-panic@") {
+				rule = "C13.race-mode-panic"
+			}
+			rec := map[string]interface{}{"property": "C13", "mode": "race", "seed": r.Seed, "run": r.Run, "rule": rule, "site": site,
+				"detail": "auxiliary free-running mode under the Go race detector (not exactly replayable; replay re-runs the workload up to 10 times and looks for the same pair of access sites)", "report": r.Text, "reproduced_on_rerun": again}
+			b, _ := json.MarshalIndent(rec, "", " ")
+			os.WriteFile(rp, b, 0644)
+			known := false
+			for _, f := range findings {
+				if f.Property == prop && f.Status == "open" && f.Key == r.Key {
+					fmt.Printf("KNOWN-FINDING: property=%s %s (%s)\n", prop, f.What, f.Key)
+					known = true
+				}
+			}
+			reported = append(reported, map[string]interface{}{"key": r.Key, "replay": rp, "known": known, "seed": r.Seed, "run": r.Run, "mode": "race", "reproduced_on_rerun": again})
+			if !known {
+				nViol++
+				fmt.Printf("violation: %s (race detector, free-running mode; reproduced on re-run: %v)\n", r.Key, again)
+				fmt.Printf("VIOLATION property=%s replay=%s\n", prop, rp)
+				exit = 1
+			}
+		}
+		raceInfo = map[string]interface{}{"workloads_run": workloads, "goroutines_per_workload": "8-48 plus the server's background loops", "reports_in_repo_code": keys,
+			"deterministic": false, "note": "sound (the race detector has no false positives) but not exactly replayable; kept because serialised simulation hides data races from the detector"}
+	}
+
 	// Phase 4: evidence.
 	ev := buildEvidence(prop, tier, seed, desc, results, len(viols), reported, exploreWall, time.Since(t0), workers)
 	eb, _ := json.MarshalIndent(ev, "", " ")
@@ -746,6 +810,11 @@ func check(prop, tier string, seed int64, replay string, budget time.Duration, w
 	if err := os.WriteFile(filepath.Join(verifDir, "evidence", prop+".json"), eb, 0644); err != nil {
 		fmt.Println("HARNESS-ERROR: cannot write evidence:", err)
 		return 2
+	}
+	if raceInfo != nil {
+		ev["coverage"].(map[string]interface{})["race_mode"] = raceInfo
+		eb, _ = json.MarshalIndent(ev, "", " ")
+		os.WriteFile(filepath.Join(verifDir, "evidence", prop+".json"), eb, 0644)
 	}
 	cov := ev["coverage"].(map[string]interface{})
 	fmt.Printf("%s %s: %v runs, %v distinct non-trivial, %v distinct states, simulated %v, wall %.1fs, violations %d\n",
@@ -764,6 +833,166 @@ func check(prop, tier string, seed int64, replay string, budget time.Duration, w
 		}
 	}
 	return exit
+}
+
+// ---- auxiliary race-detector mode (C13) --------------------------------------
+
+type raceReport struct {
+	Key   string
+	Text  string
+	Seed  int64
+	Run   int
+	Repo  bool
+}
+
+func topRepoFunc(stack string) (string, bool) {
+	for _, l := range strings.Split(stack, "\n") {
+		l = strings.TrimSpace(l)
+		if strings.Contains(l, "gca-backend/") && !strings.HasPrefix(l, "/") && !strings.Contains(l, "Verif") {
+			if k := strings.LastIndex(l, "/"); k >= 0 {
+				l = l[k+1:]
+			}
+			if k := strings.LastIndex(l, "("); k > 0 {
+				l = l[:k]
+			}
+			return l, true
+		}
+		if strings.HasPrefix(l, "verif/sim.") {
+			return "", false // the harness itself is on top
+		}
+	}
+	return "", false
+}
+
+func parseRaces(out string, seed int64, run int) []raceReport {
+	var reps []raceReport
+	for _, blk := range strings.Split(out, "==================") {
+		if !strings.Contains(blk, "WARNING: DATA RACE") {
+			continue
+		}
+		parts := strings.SplitN(blk, "\nPrevious ", 2)
+		if len(parts) < 2 {
+			continue
+		}
+		second := parts[1]
+		if k := strings.Index(second, "\nGoroutine "); k >= 0 {
+			second = second[:k]
+		}
+		a, okA := topRepoFunc(parts[0])
+		b, okB := topRepoFunc(second)
+		r := raceReport{Text: blk, Seed: seed, Run: run, Repo: okA && okB}
+		if a > b {
+			a, b = b, a
+		}
+		r.Key = "C13.race@" + a + "|" + b
+		reps = append(reps, r)
+	}
+	return reps
+}
+
+func runRace(bin string, seed int64, from, runs int, outDir string, timeout time.Duration) (string, int) {
+	cmd := exec.Command(bin, "-test.run", "^TestRace$", "-test.timeout", "0")
+	cmd.Env = append(os.Environ(), "VERIF_SEED="+strconv.FormatInt(seed, 10), "VERIF_RUN_FROM="+strconv.Itoa(from), "VERIF_RACE_RUNS="+strconv.Itoa(runs),
+		"VERIF_SCRATCH="+filepath.Join(outDir, "scratch"), "GORACE=halt_on_error=0")
+	var buf bytes.Buffer
+	cmd.Stdout = &buf
+	cmd.Stderr = &buf
+	done := make(chan error, 1)
+	if err := cmd.Start(); err != nil {
+		return err.Error(), 99
+	}
+	go func() { done <- cmd.Wait() }()
+	select {
+	case err := <-done:
+		code := 0
+		if ee, ok := err.(*exec.ExitError); ok {
+			code = ee.ExitCode()
+		}
+		return buf.String(), code
+	case <-time.After(timeout):
+		cmd.Process.Kill()
+		<-done
+		return buf.String(), 98
+	}
+}
+
+// racePhase runs the free-running workloads under the race detector. It
+// returns the distinct reports in repository code, the number of workloads
+// run, and harness trouble (a race inside the harness itself).
+func racePhase(seed int64, budget time.Duration, workers int, outDir string) (reps []raceReport, workloads int, trouble string) {
+	bin, err := build("T", true)
+	if err != nil {
+		return nil, 0, err.Error()
+	}
+	deadline := time.Now().Add(budget)
+	var mu sync.Mutex
+	seen := map[string]bool{}
+	var wg sync.WaitGroup
+	per := 4
+	for wi := 0; wi < workers; wi++ {
+		wg.Add(1)
+		go func(wi int) {
+			defer wg.Done()
+			for round := 0; time.Now().Before(deadline); round++ {
+				from := (round*workers + wi) * per
+				out, code := runRace(bin, seed, from, per, outDir, 5*time.Minute)
+				done := strings.Count(out, "RACE-RUN-DONE")
+				mu.Lock()
+				workloads += done
+				rs := parseRaces(out, seed, from+done)
+				for _, r := range rs {
+					if !r.Repo {
+						if trouble == "" {
+							trouble = "data race with harness code on top of a stack:\n" + lastN(r.Text, 3000)
+						}
+						continue
+					}
+					if !seen[r.Key] {
+						seen[r.Key] = true
+						reps = append(reps, r)
+					}
+				}
+				if code != 0 && len(rs) == 0 && trouble == "" {
+					if site, ok := panicSite(out); ok && !lifetimePanic(out) {
+						k := "C13.race-mode-panic@" + site
+						if !seen[k] {
+							seen[k] = true
+							reps = append(reps, raceReport{Key: k, Text: lastN(out, 4000), Seed: seed, Run: from + done, Repo: true})
+						}
+					} else {
+						trouble = fmt.Sprintf("race-mode worker exit %d:\n%s", code, lastN(out, 3000))
+					}
+				}
+				mu.Unlock()
+			}
+		}(wi)
+	}
+	wg.Wait()
+	sort.Slice(reps, func(i, j int) bool { return reps[i].Key < reps[j].Key })
+	return
+}
+
+// raceReplay re-runs the workload of a recorded race up to n times and reports
+// whether the same pair of access sites shows up again.
+func raceReplay(key string, seed int64, run int, outDir string, n int) bool {
+	bin, err := build("T", true)
+	if err != nil {
+		return false
+	}
+	for i := 0; i < n; i++ {
+		out, _ := runRace(bin, seed, run, 1, outDir, 5*time.Minute)
+		for _, r := range parseRaces(out, seed, run) {
+			if r.Key == key {
+				return true
+			}
+		}
+		if strings.HasPrefix(key, "C13.race-mode-panic@") {
+			if site, ok := panicSite(out); ok && "C13.race-mode-panic@"+site == key {
+				return true
+			}
+		}
+	}
+	return false
 }
 
 func singleRunSeeded(bin, prop string, rec *ViolationRecord, outDir, name string) (*ViolationRecord, int, string) {
